@@ -142,6 +142,19 @@ def extract():
     else:
         fail("c12.padding_defaults", "Default for AggregationPadding not found")
 
+    # the instantiation production runs (suites c12_noise_e2e / c12_dummies include exactly this shape)
+    rel = "query/runner/hybrid.rs"
+    t = read(rel)
+    m = expect("c12.production.hybrid_protocol", rel, t, r"hybrid_protocol::<_, BA8, BA3, HV, 3, 256>\(")
+    m = expect("c12.production.hv", rel, t, r"Query::<_, BA32, R>::new\(ipa_config, key_registry\)")
+    rel = "protocol/hybrid/mod.rs"
+    t = read(rel)
+    expect("c12.production.padding_call", rel, t, r"apply_dp_padding::<_, IndistinguishableHybridReport<BK, V>, B>\(")
+    expect("c12.production.noise_call", rel, t, r"dp_for_histogram::<_, B, HV, SS_BITS>\(ctx, finalized_histogram\.values, dp_params\)")
+    rel = "protocol/hybrid/breakdown_reveal.rs"
+    t = read(rel)
+    expect("c12.production.agg_padding_call", rel, t, r"apply_dp_padding::<_, AggregateableHybridReport<BK, V>, B>\(")
+
     cap = caps[0] if caps else 0
     lines = [
         "/-! GENERATED by tools/extract.py (plugin c12_dp) — do not edit. -/",
